@@ -10,13 +10,11 @@ import MpdProofs.Lemmas.LoopInv
   order (the unfixed code delivered only the first).
 * **names**: `Subsystem.fromName` preserves every name verbatim (C20: `C20_subsystem_name`).
 
-KNOWN FINDING K3 (open): at BYTE level the property is false of the code: `receive()` is not
-cancel-safe, so when the command branch of the `select!` wins while the live receive future has
-already parsed complete `changed:` lines of a not yet complete idle reply, those lines are lost.
-The byte-level model reproduces this (`dropFuture` records exactly the lines that die with the
-future; ghost observation `lost`), `C04_K3_witness` is a kernel-checked concrete schedule of the
-MODEL on which an event is lost, the correspondence run replays it on the implementation, and the
-oracle requires `events = reported − lost` exactly, so any OTHER loss is still a violation.
+FIXED FINDING K3 (fix F12): at BYTE level the property was false of the code: `receive()` was not
+cancel-safe, so when the command branch of the `select!` won while the live receive future had
+already parsed complete `changed:` lines of a not yet complete idle reply, those lines were lost.
+After F12 the builder state of a dropped future is kept by the connection and resumed by the next
+future (`dropFuture`, `St.bstash`); `C04_resume_witness` is the former failing schedule.
 -/
 namespace Mpd.C04
 open Mpd Mpd.Loop
@@ -32,14 +30,21 @@ theorem C04_all_changed_lines (s : St) (f : AFrame) :
 example : changedValues { fields := [(str "changed", str "player"), (str "x", str "y"), (str "changed", str "mixer")] } =
     [str "player", str "mixer"] := by decide +kernel
 
-/-- **K3 witness** (model): an idle reply arrives in two pieces and a request is issued in between;
-the `changed: options` line already parsed by the dropped receive future is lost: no event. -/
+/-- the former K3 schedule (model): an idle reply arrives in two pieces and a request is issued in
+between; the `changed: options` line already parsed by the dropped receive future is carried over
+into the future that waits for the `noidle` reply -/
 def k3State : St :=
   { pc := .idling (.inProgress { fields := [(str "changed", str "options")] }), fresh := false,
     queue := [{ id := 1, bytes := str "ping\n" }], senders := 2 }
 
-theorem C04_K3_witness :
-    (step k3State false).map (fun s => s.obs) =
-      some [.lost [str "options"], .wrote NOIDLE] := by decide +kernel
+theorem C04_resume_witness :
+    (step k3State false).map (fun s => (s.pc, s.obs)) =
+      some (.cancelWait { id := 1, bytes := str "ping\n" } (.inProgress { fields := [(str "changed", str "options")] }),
+            [.wrote NOIDLE]) := by decide +kernel
+
+/-- ... and when the rest of the reply (`OK`) arrives, the event is delivered -/
+theorem C04_resume_event :
+    ((step k3State false).bind fun s => step { s with avail := str "OK\n" } false).map (fun s => s.obs) =
+      some [.wrote NOIDLE, .event (str "options"), .wrote (str "ping\n")] := by decide +kernel
 
 end Mpd.C04
